@@ -128,4 +128,55 @@ __CPROVER_ensures((__CPROVER_return_value != NULL && TRACK3('k', 't', 'y') && __
 	 __CPROVER_return_value->kty == JWK_KEY_TYPE_OKP ? KTY_IS(VJ_STR(jwk), 'O', 'K', 'P', 0) :
 	 KTY_IS(VJ_STR(jwk), 'o', 'c', 't', 0))))
 ;
+
+#ifdef VERIF_TU_JWKS
+/* ---- jwks_process: one item per element of "keys", in document order (C07) ----
+ * jwk_process_one and jwks_item_add are replaced by RECORDING projections of their contracts
+ * (the k-th call, for the arbitrary ghost index g_seq_k): what it was given, what it returned. */
+static jwk_set_t *jwks_process(jwk_set_t *jwk_set, json_t *j_all, json_error_t *error);
+extern unsigned g_p1_calls, g_add_calls, g_seq_k; extern const json_t *g_p1_arg_k; extern const jwk_item_t *g_p1_ret_k, *g_add_item_k;
+#define SEQ_GHOSTS g_p1_calls, g_add_calls, g_p1_arg_k, g_p1_ret_k, g_add_item_k
+jwk_item_t *contract_rec_jwk_process_one(jwk_set_t *jwk_set, json_t *jwk)
+__CPROVER_requires(__CPROVER_rw_ok(jwk_set, sizeof(*jwk_set)) && jwk_set->error_msg[JWT_ERR_LEN - 1] == 0)
+__CPROVER_requires(jwk != NULL && __CPROVER_r_ok(jwk, sizeof(json_t)) && jwk->type >= JSON_OBJECT && jwk->type <= JSON_NULL && jwk->refcount >= 1)
+__CPROVER_assigns(jwk_set->error, SPEC_ERRMSG_FRAME(jwk_set), g_lib_fail, g_p1_calls, g_p1_arg_k, g_p1_ret_k)
+__CPROVER_ensures(g_p1_calls == __CPROVER_old(g_p1_calls) + 1)
+__CPROVER_ensures(__CPROVER_old(g_p1_calls) == g_seq_k ==> (g_p1_arg_k == jwk && g_p1_ret_k == __CPROVER_return_value))
+__CPROVER_ensures(__CPROVER_old(g_p1_calls) != g_seq_k ==> (g_p1_arg_k == __CPROVER_old(g_p1_arg_k) && g_p1_ret_k == __CPROVER_old(g_p1_ret_k)))
+__CPROVER_ensures(__CPROVER_return_value == NULL ==> g_lib_fail != 0)	/* contract_C07_jwk_process_one */
+__CPROVER_ensures(g_lib_fail == __CPROVER_old(g_lib_fail) || g_lib_fail == 1)
+__CPROVER_ensures(jwk_set->error_msg[JWT_ERR_LEN - 1] == 0)
+;
+int contract_rec_jwks_item_add(jwk_set_t *jwk_set, jwk_item_t *item)
+__CPROVER_requires(jwk_set != NULL && item != NULL)
+__CPROVER_assigns(g_add_calls, g_add_item_k)
+__CPROVER_ensures(__CPROVER_return_value == 0 && g_add_calls == __CPROVER_old(g_add_calls) + 1)
+__CPROVER_ensures(__CPROVER_old(g_add_calls) == g_seq_k ==> g_add_item_k == item)
+__CPROVER_ensures(__CPROVER_old(g_add_calls) != g_seq_k ==> g_add_item_k == __CPROVER_old(g_add_item_k))
+;
+#define KEYS_TRACKED (g_json_key[0] == 'k' && g_json_key[1] == 'e' && g_json_key[2] == 'y' && g_json_key[3] == 's' && g_json_key[4] == 0)
+jwk_set_t *contract_C07_jwks_process(jwk_set_t *jwk_set, json_t *j_all, json_error_t *error)
+__CPROVER_requires(__CPROVER_is_fresh(jwk_set, sizeof(*jwk_set)) && jwk_set->error_msg[JWT_ERR_LEN - 1] == 0)
+__CPROVER_requires(j_all == NULL || (__CPROVER_is_fresh(j_all, sizeof(vj_t)) && j_all->type >= JSON_OBJECT && j_all->type <= JSON_NULL && j_all->refcount >= 1 && j_all->refcount < 1000 &&
+	(j_all->type == JSON_OBJECT || j_all->tracked == NULL)))
+__CPROVER_requires(j_all == NULL || VJ_TRACKED_OK(j_all, g_vj_len_a))
+__CPROVER_requires(j_all == NULL || j_all->tracked == NULL || j_all->tracked->asize < 0x100000)
+__CPROVER_requires(__CPROVER_is_fresh(error, sizeof(*error)) && error->source[JSON_ERROR_SOURCE_LENGTH - 1] == 0 && error->text[JSON_ERROR_TEXT_LENGTH - 1] == 0)
+__CPROVER_requires(__CPROVER_is_fresh(g_json_key, 8) && KEYS_TRACKED && g_vj_len_c < 0x1000000)
+__CPROVER_requires(g_p1_calls == 0 && g_add_calls == 0 && g_lib_fail == 0 && g_p1_arg_k == NULL && g_p1_ret_k == NULL && g_add_item_k == NULL)
+__CPROVER_assigns(jwk_set->error, SPEC_ERRMSG_FRAME(jwk_set), g_lib_fail, SEQ_GHOSTS, g_vj_elem, __CPROVER_object_whole(g_vj_elem_str))
+__CPROVER_ensures(__CPROVER_return_value == jwk_set)
+/* not JSON: the set carries an error and gains no items */
+__CPROVER_ensures(j_all == NULL ==> (jwk_set->error != 0 && jwk_set->error_msg[0] != 0 && g_p1_calls == 0 && g_add_calls == 0))
+/* no "keys" member: the document itself is the one key */
+__CPROVER_ensures((j_all != NULL && j_all->tracked == NULL) ==> (g_p1_calls == 1 && (g_seq_k == 0 ==> g_p1_arg_k == j_all)))
+/* a "keys" array of n elements: n entries processed ... */
+__CPROVER_ensures((j_all != NULL && j_all->tracked != NULL && j_all->tracked->type == JSON_ARRAY) ==> g_p1_calls == j_all->tracked->asize)
+/* ... a "keys" member that is not an array: nothing to process (json_array_size is 0) */
+__CPROVER_ensures((j_all != NULL && j_all->tracked != NULL && j_all->tracked->type != JSON_ARRAY) ==> g_p1_calls == 0)
+/* and, unless the allocator failed, every entry's item is appended, the k-th append being the k-th entry's item */
+__CPROVER_ensures((j_all != NULL && g_lib_fail == 0) ==> (g_add_calls == g_p1_calls && (g_seq_k < g_p1_calls ==> (g_add_item_k == g_p1_ret_k && g_p1_ret_k != NULL))))
+__CPROVER_ensures(g_add_calls <= g_p1_calls)
+;
+#endif
 #endif
